@@ -345,7 +345,8 @@ def build_templates():
         # what x[idx] = y must leave in x, computed with the copying API only: y.to(x.units) on a copy
         x, y = A["x"], A["y"]
         exp = np.array(np.asarray(x), copy=True)
-        if y.units != x.units and not y.units.is_dimensionless:
+        if y.units != x.units and not (y.units.is_dimensionless and float(y.units.base_value) == 1.0):
+            # a bare number (unit 1) is stored as it is; anything else, percent included, is converted
             y = y.to(x.units)
         exp[p["idx"]] = np.asarray(y)
         return type(x)(exp, x.units) if exp.shape != () else unyt.unyt_quantity(exp, x.units)
@@ -1139,8 +1140,109 @@ def cold_eval(req):
             "violations": [v["sig"] for v in sim.violations]}
 
 
+# ------------------------------------------------------------ curated sweep
+# Deterministic part of the payload space: every in-place template x a curated
+# list of unit pairs (same scale / other zero point, other scale, offset on
+# either side, compound spellings, custom registry) x dtype x shape x view.
+# The seeded grid visits each (template, role, fault) cell with ONE random
+# payload per run; the pairs below are the ones where unit handling has a
+# special case, and a random payload hits them about once in a hundred visits.
+
+SWEEP_PAIRS = [("K", "degC"), ("degC", "K"), ("degF", "R"), ("R", "degF"), ("degC", "degF"), ("delta_degC", "K"),
+               ("m", "cm"), ("cm", "km"), ("erg", "J"), ("J", "erg"), ("N*m", "erg"), ("km/hr", "cm/s"),
+               ("code_length", "m"), ("m", "m"), ("degree", "rad"), ("dimensionless", "percent")]
+SWEEP_DTYPES = ["float64", "float32", "int64", "int16"]
+SWEEP_SHAPES = [(3,), (), (1,)]
+SWEEP_VIEWS = [None, "tail"]
+
+
+def sweep_templates():
+    T = templates()
+    names = []
+    for n, t in sorted(T.items()):
+        if not t.target:
+            continue
+        if t.cat in ("iconv", "iop", "ifunc"):
+            names.append(n)
+        elif t.cat == "ufunc_out" and n.split(":")[0] in ("ufo",) and n.split(":")[1] in (
+                "add", "subtract", "multiply", "divide", "true_divide", "floor_divide", "maximum", "minimum", "hypot",
+                "remainder", "fmod", "power", "sqrt", "square", "negative", "absolute", "copysign", "heaviside"):
+            names.append(n)
+    return names
+
+
+def sweep_total():
+    return len(sweep_templates()) * len(SWEEP_PAIRS) * len(SWEEP_DTYPES) * len(SWEEP_SHAPES) * len(SWEEP_VIEWS)
+
+
+def sweep_case(index):
+    names = sweep_templates()
+    i = index % sweep_total()
+    i, vi = divmod(i, len(SWEEP_VIEWS))
+    i, si = divmod(i, len(SWEEP_SHAPES))
+    i, di = divmod(i, len(SWEEP_DTYPES))
+    i, pi = divmod(i, len(SWEEP_PAIRS))
+    name = names[i % len(names)]
+    t = templates()[name]
+    a, b = SWEEP_PAIRS[pi]
+    dt, shape, view = SWEEP_DTYPES[di], SWEEP_SHAPES[si], SWEEP_VIEWS[vi]
+    if name == "np.fill_diagonal":
+        shape = (2, 2)
+    n = 1
+    for d_ in shape:
+        n *= d_
+    base = [2.0, 3.0, 5.0, 7.0, 11.0]
+    ops = []
+    args = {}
+
+    def mk(unit, dtype, shp, vals):
+        reg = "R" if unit in CUSTOM_ONLY else "D"
+        k = 1
+        for d_ in shp:
+            k *= d_
+        v = (vals * (k + 1))[:k]
+        if dtype.startswith("int"):
+            v = [int(x) for x in v]
+        ops.append({"k": "mk", "dt": dtype, "shape": list(shp), "vals": v, "unit": unit, "reg": reg, "ro": False,
+                    "q": len(shp) == 0})
+        return sum(1 for o in ops if o["k"] in ("mk", "view")) - 1
+
+    for role in t.roles:
+        if role == t.target:
+            shp = shape
+            if view == "tail" and len(shape) == 1:
+                shp = (shape[0] + 1,)
+            idx = mk(a if role != "o" else [a, "dimensionless", "degC", b][index % 4], dt, shp, base)
+            if view == "tail" and len(shape) == 1:
+                ops.append({"k": "view", "of": idx, "how": "tail"})
+                idx += 1
+            args[role] = idx
+        elif role == "x":
+            args[role] = mk(a, "float64" if t.target == "o" and index % 3 else dt, shape, base)
+        else:
+            yshape = () if (name == "np.fill_diagonal" or "idx" in t.params) else shape
+            args[role] = mk(b, "float64", yshape, [1.0, 4.0, 0.5, 9.0])
+    p = {}
+    if "u" in t.params:
+        p["u"] = b
+    if "sys" in t.params:
+        p["sys"] = SYSTEMS[index % len(SYSTEMS)]
+    if "c" in t.params:
+        p["c"] = [2.0, 3, 0.5][index % 3]
+    if "e" in t.params:
+        p["e"] = [2, 0.5, -1][index % 3]
+    if "idx" in t.params:
+        p["idx"] = () if len(shape) == 0 else (0 if shape[0] == 1 else [1, 2, 0][index % 3])
+    ops.append({"k": "call", "t": name, "a": args, "p": p, "fault": "sweep", "warn": False})
+    cfg = {"dtypes": SWEEP_DTYPES, "n_calls": 1, "p_reuse": 0.0, "p_fault": 0.0, "sweep": True}
+    return ops, cfg
+
+
 def simulate(chan, spec):
     rng = make_rng(spec["seed"], "C18", spec["run"])
+    if spec.get("sweep") is not None and spec.get("ops") is None:
+        ops_s, cfg_s = sweep_case(spec["sweep"])
+        spec = dict(spec, ops=ops_s, cfg=cfg_s)
     cfg = spec.get("cfg") or make_config(rng)
     ops_in = spec.get("ops")
     sim = Sim18(chan, cfg)
